@@ -163,7 +163,36 @@ def run_deductive(pid, plan, repo, tier, seed, replay_dir):
                 else:
                     violations.append((rp, "obligation %s refuted by %s (%s)" % (r["name"], r["backend"], nat.get("status")), "no-failing-input-found"))
             else:
-                undecided.append("%s: %s (%s)" % (r["name"], r["status"], r["info"]))
+                # not decided by z3 / cvc5.  Stage 3: sound quantifier-free instantiation (may discharge, may give a candidate model)
+                ob = r["_oblig"]
+                st3, info3 = ("unknown", "")
+                if r["status"] == "unknown":
+                    try:
+                        st3, info3 = solve.relax_check(ob.hyps, ob.goal)
+                    except Exception as e:  # noqa
+                        st3, info3 = "unknown", "relaxation failed: %s" % e
+                if st3 == "discharged":
+                    n_dis += 1
+                    r["status"], r["backend"] = "discharged", "z3-instantiation"
+                    by_backend["z3-instantiation"] = by_backend.get("z3-instantiation", 0) + 1
+                    continue
+                base_name = r["name"].split("#p")[0]
+                was = baseline.get(r["name"]) or baseline.get(base_name)
+                if was == "discharged" and r["status"] == "unknown":
+                    # an obligation that was discharged on the committed tree no longer is: reported as a violation without input
+                    rp = os.path.join(replay_dir, "%s-%s.json" % (pid, _safe(r["name"])))
+                    payload = dict(property=pid, obligation=r["name"], function=o["function"], kind=r["kind"], line=r["line"],
+                                   solver=r["backend"], solver_result="not discharged: %s" % r["info"],
+                                   relaxation=dict(status=st3, info=info3),
+                                   baseline="discharged on the committed tree (baseline_obligations.json); fails on this tree",
+                                   decoded_inputs=None, native_replay={"status": "no-model"},
+                                   replay_cmd="python3-vt checks/check.py %s --replay %s" % (pid, rp))
+                    json.dump(payload, open(rp, "w"), indent=1, default=str)
+                    refuted_names.append(r["name"])
+                    violations.append((rp, "obligation %s was discharged on the committed tree and is not discharged now (%s; relaxation: %s)"
+                                       % (r["name"], r["info"], st3), "no-failing-input-found"))
+                else:
+                    undecided.append("%s: %s (%s)" % (r["name"], r["status"], r["info"]))
     # several refuted obligations of one run: keep one VIOLATION line per function, preferring replayed ones
     violations = sorted(violations, key=lambda v: (v[2] != "", v[0]))[:3]
     mut = mutation_selftest(plan, repo, tier)
